@@ -12,28 +12,28 @@ NOTE = ("Trusted: Lean 4.33 kernel; axioms propext/Classical.choice/Quot.sound o
 
 claimed = {
  "C01": dict(
-   text="Lean 4 proof (kernel-checked, unbounded): for every register state and every byte the bus may return, below every opcode the data sheets define, the code-shaped Impl model instantiated with the opcode table and literals extracted from /repo on this run makes exactly the specification's stores and leaves the specification's registers outside the don't-care masks (interaction-tree refinement, 213 handler theorems + ALU/address lemma library for all operand values). Tie: regenerated table fact re-proved by lake on every run + differential execution of the real cpu package against the compiled model on every opcode of both models; the executable Spec is evaluated on every Go result to produce a concrete failing input. One open known finding (65C02 BIT #imm) is excluded by exactly its signature (C01_step_partial / Findings.C01 witness).",
+   text="Lean 4 proof (kernel-checked, unbounded): for every register state and every byte the bus may return, below every opcode the data sheets define, the code-shaped Impl model instantiated with the opcode table and literals extracted from /repo on this run makes exactly the specification's stores and leaves the specification's registers outside the don't-care masks (interaction-tree refinement, 213 handler theorems + ALU/address lemma library for all operand values). Tie: regenerated table fact re-proved by lake on every run + differential execution of the real cpu package against the compiled model on every opcode of both models; the executable Spec is evaluated on every Go result to produce a concrete failing input. Lifted to executions (C01_path_stores: along every path the implemented step makes exactly the specification's stores) and to runs (C01_run: on every plain bus, from every state, for every number of instructions, the run of the code and the run of the specification's own fetch-decode-execute loop stop the same way in the same registers and memory while the executed path is exactly specified). One open known finding (65C02 BIT #imm) is excluded by exactly its signature (C01_step_partial / Findings.C01 witness).",
    technique="Lean 4 interaction-tree refinement proof + regenerated opcode table + differential correspondence"),
  "C02": dict(
-   text="Lean 4 proof: per instruction the Impl model reports the data-sheet cycles incl. page-cross, branch and decimal penalties for all geometries (C02_step, against the full Spec); run total = start + sum over the executed path, halting BRK adds nothing, reset/continue and split laws by induction on fuel. Tie: cycle literals and opcode table regenerated from the Go AST on every run (consts_ok, implemented_entry re-proved) + differential single-step execution comparing NumCycles.",
+   text="Lean 4 proof: per instruction the Impl model reports the data-sheet cycles incl. page-cross, branch and decimal penalties for all geometries (C02_step, against the full Spec); run total = start + sum over the executed path, halting BRK adds nothing, reset/continue and split laws by induction on fuel; against the specification's own run loop: counter after a run = counter before + sum of the data-sheet cycles of every executed non-halting instruction (C02_total, on every plain bus while the executed path is exactly specified). Tie: cycle literals and opcode table regenerated from the Go AST on every run (consts_ok, implemented_entry re-proved) + differential single-step execution comparing NumCycles.",
    technique="Lean 4 refinement proof + regenerated cycle literals (rfl) + differential correspondence"),
  "C03": dict(
-   text="Lean 4 proof: the tree of bus accesses of every implemented opcode equals the specification's logical accesses (same kind, address, order; no extra, none missing) for every state and bus answer (C03_step, C03_multiset, C03_fetch_once). Tie: regenerated opcode table + trace-exact differential on a recording bus. Per-address totals on the counting memory models are in C06.",
+   text="Lean 4 proof: the tree of bus accesses of every implemented opcode equals the specification's logical accesses (same kind, address, order; no extra, none missing) for every state and bus answer (C03_step, C03_multiset, C03_fetch_once); on any counting bus the counter of every address grows over a run by exactly the accesses the executed instructions issued (C03_run); after a run on a counted bus, and on each of the memory models used as a bus, every per-address / per-physical-byte access statistic equals that of the specification's own run (C03_run_spec, C03_run_machine). Tie: regenerated opcode table + trace-exact differential on a recording bus.",
    technique="Lean 4 tree-shape refinement proof + trace-exact differential correspondence"),
  "C11": dict(
-   text="Lean 4 proof: nothing is registered where the data sheets define nothing (regenerated table fact, both models); an unimplemented opcode yields exactly one fetch then the illegal-opcode error with registers untouched; totality of the model (three exits). The host-crash part (Go runtime) is PARTIAL: validated only by execution of random cases under a bus watchdog.",
+   text="Lean 4 proof: nothing is registered where the data sheets define nothing (regenerated table fact, both models); an unimplemented opcode yields exactly one fetch then the illegal-opcode error with registers untouched; totality of the model (three exits). The host-crash part (Go runtime) is PARTIAL: validated by execution only - random cases under a bus watchdog in-process, and generated programs on the ten real memory machines run in child processes of the harness so that a fatal (unrecoverable) runtime error is attributed to the program that caused it.",
    technique="Lean 4 proof over regenerated opcode table + differential correspondence (runtime part partial)"),
  "C04": dict(
    text="Lean 4 proof: the Go address decoders (machine arithmetic, all four memory types) equal the documented map for all 65 536 addresses x all values of every banking register / LUT entry (C04_decode, no enumeration); read-your-writes by induction over arbitrary histories with banking state resolved at access time (C04_ryw); one-byte stores, in-bounds, linear fault boundary. Tie: MemSpec switch regenerated from emuconfig (memspec_builds) + history differential on the ten real machines against the compiled model and against the specification's documented map.",
    technique="Lean 4 decoder-equivalence proof + history induction + regenerated MemSpec switch + differential histories"),
  "C05": dict(
-   text="Lean 4 proof: calcLongIndex = README layout for all 2^32 linear addresses (C05_layout); the layout is a bank-independent injection and surjection onto all cells with a linear address, faults past the end, coherent with the CPU view (C05_inj, C05_surj, C05_bank_indep, C05_fault, C05_coherent). Tie: differential histories mixing both views on the real machines incl. past-the-end probes and complete final image sweeps.",
+   text="Lean 4 proof: calcLongIndex = README layout for all 2^32 linear addresses (C05_layout); the layout is a bank-independent injection and surjection onto all cells with a linear address, faults past the end, coherent with the CPU view (C05_inj, C05_surj, C05_bank_indep, C05_fault, C05_coherent). Tie: differential histories mixing both views on the real machines incl. past-the-end probes and complete final image sweeps; read_byte_long / write_byte_long from generated Lua scripts on the banked machines.",
    technique="Lean 4 bijection/coherence proof + differential histories through both views"),
  "C06": dict(
-   text="Lean 4 proof: counter of a cell after any history = accesses since the last clear that resolved to it, by induction over histories with bank switches, both views, queries, clears, snapshots (C06_count); queries pure; clear total. Tie: the list of counters ClearStatistics zeroes is regenerated from the Go AST and proved to cover every region (clear_covers) + differential histories with interleaved queries and a complete final counter sweep.",
+   text="Lean 4 proof: counter of a cell after any history = accesses since the last clear that resolved to it, by induction over histories with bank switches, both views, queries, clears, snapshots (C06_count); queries pure; clear total; every counter array is allocated as long as the data buffer of its region (C06_counters_sized, regenerated allocation facts). Tie: the list of counters ClearStatistics zeroes is regenerated from the Go AST and proved to cover every region (clear_covers) + differential histories with interleaved queries and a complete final counter sweep.",
    technique="Lean 4 history induction + regenerated clear lists + differential histories with full counter sweep"),
  "C07": dict(
-   text="Lean 4 proof: snapshot; any history without TakeSnapshot; restore returns every cell of every region (banks, registers, LUTs) to its snapshot-time value; snapshot immutable; repeatable (C07_restore, C07_snapshot_immutable, C07_repeat). Tie: the copy statements of TakeSnapshot/RestoreSnapshot of every memory type and the forwarding of the wrapper are regenerated from the Go AST and proved to cover every region (snapshot_covers, wrapper_forwards) + executions on the real machines comparing the complete image after each restore with the image at snapshot time.",
+   text="Lean 4 proof: snapshot; any history without TakeSnapshot; restore returns every cell of every region (banks, registers, LUTs) to its snapshot-time value; snapshot immutable; repeatable (C07_restore, C07_snapshot_immutable, C07_repeat). Tie: the copy statements of TakeSnapshot/RestoreSnapshot of every memory type and the forwarding of the wrapper are regenerated from the Go AST and proved to cover every region, to use pairwise distinct buffers and buffers allocated as long as what they save (snapshot_covers, take_targets_distinct, C07_buffers, wrapper_forwards) + executions on the real machines comparing the complete image after each restore with the image at snapshot time.",
    technique="Lean 4 history proof + regenerated snapshot copy lists + snapshot/restore image comparison on real machines"),
  "C20": dict(
    text="Lean 4 proof: for every range start<=end<=$FFFF the dump loop (counter width regenerated from the Go source, obligation 17<=bits) terminates after end-start+1 iterations, the lines concatenated are exactly the addresses start..end once in ascending order, every line but the last has 16 entries and line k starts at start+16k (C20_bytes, C20_lines, C20_terminates); a 16-bit counter provably never exits at $FFFF (counterLoop_diverges_16); an accepted specification is digits:digits, in range, non-zero, non-wrapping (C20_spec_form, C20_spec_sound, C20_spec_complete); validation precedes loading (regenerated call-order fact). Tie: exact-text differential of memory.Dump and of the parameter parser through a build-tag hook.",
